@@ -82,7 +82,9 @@ def explore_grammar(args):
                 rs = RefState()
                 log = [] if opts.get("attempts") else None
                 try:
-                    out["rok"] = PegRef(W, list(bs), ref_rules, log=log).call_rule(start, rs); out["rs"] = rs; out["rlog"] = log
+                    pr = PegRef(W, list(bs), ref_rules, log=log)
+                    out["rok"] = pr.call_rule(start, rs); out["rs"] = rs; out["rlog"] = log
+                    out["rreport"] = (pr.rep_pos, sorted(set(x.decode() for x in pr.rep_P)), sorted(set(x.decode() for x in pr.rep_N)))
                 except RefPanic as e:
                     out["rpanic"] = str(e)
                 except NonTermination as e:
@@ -125,6 +127,7 @@ def explore_grammar(args):
                     row["ref"] = {"res": "OK" if res["rok"] else "ERR", "pos": rs.pos, "toks": tok_str(rs.queue), "tags": tags_str(rs.queue),
                                   "stack": ",".join(bytes(evb(x) for x in it).hex() or "-" for it in rs.stack)}
                     if res.get("rlog") is not None: row["rlog"] = [(a.decode(), b, c, d, e) for a, b, c, d, e in res["rlog"]]
+                    row["rreport"] = res.get("rreport")
             rows.append(row)
         nq += ex.nqueries; st_time += ex.solver_time
         if opts.get("max_paths") and npaths >= opts["max_paths"]: break
